@@ -320,9 +320,10 @@ func sameAddr(a, b ssa.Value) bool {
 // calls
 
 // callKey names the callee of a call through type information:
-//   "xmpp.Transport.IsSecure" (interface method), "xmpp.XMPPTransport.Connect"
-//   (concrete method, pointer or value receiver), "xmpp.NewSession",
-//   "encoding/xml.Decoder.DecodeElement", "fmt.Fprintf", "builtin.close".
+//
+//	"xmpp.Transport.IsSecure" (interface method), "xmpp.XMPPTransport.Connect"
+//	(concrete method, pointer or value receiver), "xmpp.NewSession",
+//	"encoding/xml.Decoder.DecodeElement", "fmt.Fprintf", "builtin.close".
 func (w *World) callKey(c ssa.CallInstruction) string {
 	cc := c.Common()
 	if cc.IsInvoke() {
@@ -1009,7 +1010,7 @@ type frame struct {
 // pathCtx describes the path currently handed to a visit callback.
 type pathCtx struct {
 	path     []ssa.Instruction
-	frames   []*frame                    // parallel to path
+	frames   []*frame // parallel to path
 	children map[*frame]map[*ssa.Call]*frame
 }
 
